@@ -11,6 +11,7 @@ import Mathlib.Tactic.Linarith
 import Mathlib.Tactic.Ring
 import Mathlib.Algebra.Order.Field.Basic
 import Proofs.Lemmas.Affinity
+import Proofs.Lemmas.Bounds
 namespace SE.Proofs.C06
 open SE SE.Affinity
 variable {σ : Type}
@@ -368,5 +369,307 @@ example : affinity boxGeos (.boundingBox 0 100 1 200) (.boundingBox 5 100 6 200)
 example : WF (.boundingBox 0 0 2 1) := ⟨by decide +kernel, by decide +kernel⟩
 example : NoClamp (.timeStamp 1) (1/2) 3 := by
   intro b hb; rw [bounds_timeStamp] at hb; cases hb; constructor <;> decide +kernel
+
+/-! ## review additions -/
+
+/-! ### the route: which computation `compute_affinity` ends in (tied to the source for all 81 type pairs) -/
+
+/-- `compute_affinity` is its route (re-derived from the source symbolically) followed by the time IoU
+    (`ext_time_iou`) or, in the area branch, by nothing -/
+theorem C06_route_composes (G : Geos σ) (g1 g2 : Geom) (tb fb : Rat) :
+    (affinity G g1 g2 tb fb).toOption = (route G g1 g2 tb fb).map Route.value := by
+  unfold affinity route
+  rcases prepare G g1 tb fb with e1 | p1 <;> rcases prepare G g2 tb fb with e2 | p2 <;>
+    simp only [Except.toOption, Option.map]
+  unfold affinityP
+  split <;> rfl
+
+/-- … and the same in any rounding arithmetic -/
+theorem C06_routeR_composes (rnd : Rat → Rat) (G : Geos σ) (g1 g2 : Geom) (tb fb : Rat) :
+    (affinityR rnd G g1 g2 tb fb).toOption = (routeR rnd G g1 g2 tb fb).map (Route.valueR rnd) := by
+  unfold affinityR routeR
+  rcases prepareR rnd G g1 tb fb with e1 | p1 <;> rcases prepareR rnd G g2 tb fb with e2 | p2 <;>
+    simp only [Except.toOption, Option.map]
+  unfold affinityPR
+  split <;> rfl
+
+/-- exact arithmetic is the rounding arithmetic `rnd = id` -/
+theorem affinityR_id (G : Geos σ) (g1 g2 : Geom) (tb fb : Rat) :
+    affinityR id G g1 g2 tb fb = affinity G g1 g2 tb fb := by
+  unfold affinityR affinity
+  rw [prepareR_id, prepareR_id]
+  rcases prepare G g1 tb fb with e1 | p1 <;> rcases prepare G g2 tb fb with e2 | p2 <;> simp only
+  rfl
+
+theorem routeR_id (G : Geos σ) (g1 g2 : Geom) (tb fb : Rat) :
+    routeR id G g1 g2 tb fb = route G g1 g2 tb fb := by
+  unfold routeR route
+  rw [prepareR_id, prepareR_id]
+  rfl
+
+/-! ### the formulas in a rounding arithmetic -/
+
+/-- **Range of the time branch in floating point.**  With every operation rounded, the time affinity
+    of two ordered extents still lies in `[0, 1]`: the rounded union is never below the rounded overlap
+    (this is why the time branch needs no clamp) -/
+theorem timeIoUR_range {rnd : Rat → Rat} (R : IsRounding rnd) (s1 e1 s2 e2 : Rat) (h1 : s1 ≤ e1) (h2 : s2 ≤ e2) :
+    0 ≤ timeIoUR rnd s1 e1 s2 e2 ∧ timeIoUR rnd s1 e1 s2 e2 ≤ 1 := by
+  obtain ⟨i0, iu⟩ := timeR_facts R s1 e1 s2 e2 h1 h2
+  unfold timeIoUR
+  simp only
+  split
+  · exact ⟨le_refl _, by norm_num⟩
+  · rename_i hu
+    have hpos : 0 < rnd (rnd (rnd (e1 - s1) + rnd (e2 - s2)) - max 0 (rnd (min e1 e2 - max s1 s2))) :=
+      lt_of_le_of_ne (le_trans i0 iu) (Ne.symm hu)
+    refine ⟨R.nonneg _ (div_nonneg i0 hpos.le), ?_⟩
+    have := R.mono _ 1 ((div_le_one hpos).2 iu)
+    rwa [R.one] at this
+
+theorem timeIoUR_symm (rnd : Rat → Rat) (s1 e1 s2 e2 : Rat) :
+    timeIoUR rnd s1 e1 s2 e2 = timeIoUR rnd s2 e2 s1 e1 := by
+  unfold timeIoUR
+  rw [min_comm e1 e2, max_comm s1 s2, add_comm (rnd (e1 - s1))]
+
+/-- an extent whose (rounded) duration is positive has time affinity exactly 1 with itself -/
+theorem timeIoUR_self {rnd : Rat → Rat} (R : IsRounding rnd) (s e : Rat) (h : 0 < rnd (e - s)) :
+    timeIoUR rnd s e s e = 1 := by
+  unfold timeIoUR
+  simp only [min_self, max_self]
+  rw [max_eq_right h.le]
+  have hS : rnd (rnd (e - s) + rnd (e - s)) = 2 * rnd (e - s) := by
+    rw [← two_mul]; exact R.dbl _ (R.idem _)
+  have hu : rnd (rnd (rnd (e - s) + rnd (e - s)) - rnd (e - s)) = rnd (e - s) := by
+    rw [hS]
+    have : 2 * rnd (e - s) - rnd (e - s) = rnd (e - s) := by ring
+    rw [this, R.idem]
+  rw [hu, if_neg (ne_of_gt h), div_self (ne_of_gt h), R.one]
+
+theorem timeIoUR_disjoint {rnd : Rat → Rat} (R : IsRounding rnd) (s1 e1 s2 e2 : Rat) (h : e1 ≤ s2 ∨ e2 ≤ s1) :
+    timeIoUR rnd s1 e1 s2 e2 = 0 := by
+  have hm : min e1 e2 - max s1 s2 ≤ 0 := by
+    rcases h with h | h
+    · have := min_le_left e1 e2; have := le_max_right s1 s2; linarith
+    · have := min_le_right e1 e2; have := le_max_left s1 s2; linarith
+  have hi : max 0 (rnd (min e1 e2 - max s1 s2)) = 0 := max_eq_left (R.nonpos _ hm)
+  unfold timeIoUR
+  simp only [hi]
+  split
+  · rfl
+  · rw [zero_div, R.zero]
+
+/-- **Range of the (repaired) area branch in floating point**: of the three numbers GEOS returned only
+    `0 ≤ I ≤ A + B` is needed -/
+theorem iouCR_range {rnd : Rat → Rat} (R : IsRounding rnd) (a b i : Rat) (h0 : 0 ≤ i) (hi : rnd i = i)
+    (hu : i ≤ a + b) : 0 ≤ iouCR rnd a b i ∧ iouCR rnd a b i ≤ 1 := by
+  have hS : i ≤ rnd (a + b) := by have := R.mono i (a + b) hu; rwa [hi] at this
+  have hU : 0 ≤ rnd (rnd (a + b) - i) := R.nonneg _ (by linarith)
+  unfold iouCR
+  simp only
+  split
+  · exact ⟨le_refl _, by norm_num⟩
+  · exact ⟨le_min (R.nonneg _ (div_nonneg h0 hU)) (by norm_num), min_le_right _ _⟩
+
+theorem iouCR_symm (rnd : Rat → Rat) (a b i : Rat) : iouCR rnd a b i = iouCR rnd b a i := by
+  unfold iouCR; rw [add_comm a b]
+
+theorem iouCR_self {rnd : Rat → Rat} (R : IsRounding rnd) (a : Rat) (h : 0 < a) (hr : rnd a = a) :
+    iouCR rnd a a a = 1 := by
+  unfold iouCR
+  simp only
+  have hS : rnd (a + a) = 2 * a := by rw [← two_mul]; exact R.dbl a hr
+  have hu : rnd (rnd (a + a) - a) = a := by
+    rw [hS]
+    have : 2 * a - a = a := by ring
+    rw [this, hr]
+  rw [hu, if_neg (ne_of_gt h), div_self (ne_of_gt h), R.one, min_self]
+
+theorem iouCR_zero {rnd : Rat → Rat} (R : IsRounding rnd) (a b : Rat) : iouCR rnd a b 0 = 0 := by
+  unfold iouCR
+  simp only
+  split
+  · rfl
+  · rw [zero_div, R.zero]; exact min_eq_left (by norm_num)
+
+theorem timeIoUR_id (s1 e1 s2 e2 : Rat) : timeIoUR id s1 e1 s2 e2 = timeIoU s1 e1 s2 e2 := rfl
+
+theorem iouCR_id (a b i : Rat) : iouCR id a b i = iouC a b i := rfl
+
+/-! ### the dispatcher in a rounding arithmetic -/
+
+/-- **Range, floating point included.**  In any rounding arithmetic the repaired `compute_affinity`
+    returns a value in `[0, 1]` for valid geometries, provided what GEOS returned is `Sane` -/
+theorem C06_range_rounded {rnd : Rat → Rat} (R : IsRounding rnd) (G : Geos σ) (hG : Sane G)
+    (hrep : Representable rnd G) (g1 g2 : Geom) (tb fb v : Rat) (w1 : WF g1) (w2 : WF g2)
+    (h : affinityR rnd G g1 g2 tb fb = .ok v) : 0 ≤ v ∧ v ≤ 1 := by
+  obtain ⟨p1, p2, h1, h2, rfl⟩ := affinityR_ok_prepared rnd G g1 g2 tb fb v h
+  unfold affinityPR
+  split
+  · exact timeIoUR_range R _ _ _ _ (prepareR_ordered R G hG.bounds_ordered g1 tb fb p1 w1 h1)
+      (prepareR_ordered R G hG.bounds_ordered g2 tb fb p2 w2 h2)
+  · exact iouCR_range R _ _ _ (hG.inter_nonneg _ _) (hrep.inter _ _) (hG.inter_le_sum _ _)
+
+/-- **Symmetry** in any rounding arithmetic (errors included), given exact plane geometry -/
+theorem C06_symm_rounded (rnd : Rat → Rat) (G : Geos σ) (hG : Sound G) (g1 g2 : Geom) (tb fb : Rat) :
+    affinityR rnd G g1 g2 tb fb = affinityR rnd G g2 g1 tb fb := by
+  unfold affinityR
+  rcases h1 : prepareR rnd G g1 tb fb with e1 | p1 <;> rcases h2 : prepareR rnd G g2 tb fb with e2 | p2 <;>
+    simp only
+  · rw [(prepareR_error rnd G g1 tb fb e1 h1).1, (prepareR_error rnd G g2 tb fb e2 h2).1]
+  · unfold affinityPR
+    rw [Bool.or_comm (isTime p1) (isTime p2), timeIoUR_symm, iouCR_symm, hG.inter_symm]
+
+/-- **Self-affinity** is exactly 1 in any rounding arithmetic -/
+theorem C06_self_one_rounded {rnd : Rat → Rat} (R : IsRounding rnd) (G : Geos σ) (hG : Sound G)
+    (hrep : Representable rnd G) (g : Geom) (tb fb : Rat) (p : Prep σ)
+    (hp : prepareR rnd G g tb fb = .ok p) (hext : 0 < extentR rnd G p) : affinityR rnd G g g tb fb = .ok 1 := by
+  rw [affinityR_eq rnd G g g tb fb p p hp hp]
+  congr 1
+  unfold affinityPR
+  unfold extentR at hext
+  cases ht : isTime p <;> simp only [ht, Bool.or_self, if_true] at hext ⊢
+  · simp only [Bool.false_eq_true, if_false] at hext ⊢
+    rw [hG.inter_self]; exact iouCR_self R _ hext (hrep.area _)
+  · exact timeIoUR_self R _ _ hext
+
+/-- **Disjoint in time** gives exactly 0 in any rounding arithmetic -/
+theorem C06_disjoint_zero_rounded {rnd : Rat → Rat} (R : IsRounding rnd) (G : Geos σ) (hG : Sound G)
+    (g1 g2 : Geom) (tb fb : Rat) (p1 p2 : Prep σ) (w1 : WF g1) (w2 : WF g2)
+    (h1 : prepareR rnd G g1 tb fb = .ok p1) (h2 : prepareR rnd G g2 tb fb = .ok p2)
+    (hd : (timeBounds G p1).2 ≤ (timeBounds G p2).1 ∨ (timeBounds G p2).2 ≤ (timeBounds G p1).1) :
+    affinityR rnd G g1 g2 tb fb = .ok 0 := by
+  rw [affinityR_eq rnd G g1 g2 tb fb p1 p2 h1 h2]
+  congr 1
+  unfold affinityPR
+  cases t1 : isTime p1 <;> cases t2 : isTime p2 <;> simp only [Bool.or_self, Bool.or_true, Bool.or_false,
+      Bool.false_eq_true, if_true, if_false]
+  · obtain ⟨a1, b1⟩ := toShape_bounds G hG g1 tb fb p1 w1 (prepareR_nontime rnd G g1 tb fb p1 h1 t1) t1
+    obtain ⟨a2, b2⟩ := toShape_bounds G hG g2 tb fb p2 w2 (prepareR_nontime rnd G g2 tb fb p2 h2 t2) t2
+    have : G.inter (toShape G p1) (toShape G p2) = 0 := by
+      rcases hd with hd | hd
+      · exact hG.inter_disjoint _ _ (by rw [b1, a2]; exact hd)
+      · rw [hG.inter_symm]; exact hG.inter_disjoint _ _ (by rw [b2, a1]; exact hd)
+    rw [this, iouCR_zero R]
+  all_goals exact timeIoUR_disjoint R _ _ _ _ hd
+
+/-- the laws are satisfiable: exact arithmetic, and (non-trivially) rounding down to integers -/
+theorem C06_roundings_exist : IsRounding id ∧ IsRounding floorRnd ∧ floorRnd (1/2) ≠ 1/2 := by
+  refine ⟨isRounding_id, ⟨?_, ?_, ?_, ?_, ?_⟩, by decide +kernel⟩
+  · intro x y h
+    unfold floorRnd
+    exact_mod_cast Rat.floor_monotone h
+  · decide +kernel
+  · decide +kernel
+  · intro x; unfold floorRnd; rw [Rat.floor_intCast]
+  · intro x hx
+    unfold floorRnd at hx ⊢
+    rw [← hx]
+    have : (2 : Rat) * ((x.floor : Int) : Rat) = ((2 * x.floor : Int) : Rat) := by push_cast; ring
+    rw [this, Rat.floor_intCast]
+
+example : timeIoUR floorRnd (1/2) (5/2) (3/2) (7/2) = 0 := by decide +kernel
+example : timeIoU (1/2) (5/2) (3/2) (7/2) = 1/3 := by decide +kernel
+
+/-! ### time-only pairs in closed form, shapes included -/
+
+/-- **Time-only, closed form.**  If either geometry is a TimeStamp / TimeInterval and neither is a
+    point- or line-like geometry (whose polygonal buffer GEOS computes), the affinity is the time IoU of
+    extents read off the coordinates: `[max(t - tb, 0), t + tb]` for a time stamp, `[start, end]` for an
+    interval or box, the smallest and largest time of the exterior ring(s) for a (multi)polygon -/
+theorem C06_time_only_closed_form (G : Geos σ) (hB : BoundsExact G) (g1 g2 : Geom) (tb fb : Rat)
+    (hb : 0 ≤ tb ∧ 0 ≤ fb) (ht : timeTypes.contains g1.tag = true ∨ timeTypes.contains g2.tag = true)
+    (x1 x2 : Rat × Rat) (h1 : closedExtent g1 tb = some x1) (h2 : closedExtent g2 tb = some x2) :
+    affinity G g1 g2 tb fb = .ok (timeIoU x1.1 x1.2 x2.1 x2.2) := by
+  have hn : ¬ (tb < 0 ∨ fb < 0) := by
+    rintro (h | h) <;> linarith [hb.1, hb.2]
+  have key : ∀ g x, closedExtent g tb = some x →
+      ∃ p, prepare G g tb fb = .ok p ∧ timeBounds G p = x := by
+    intro g x hx
+    rw [prepare_spec]
+    cases g <;> simp only [closedExtent, Option.some.injEq, reduceCtorEq] at hx
+    · subst hx; exact ⟨.interval "TimeInterval" (max (_ - tb) 0) (_ + tb), by simp only [hn, if_false], rfl⟩
+    · subst hx; exact ⟨_, rfl, rfl⟩
+    · rename_i r
+      rcases hbd : (Geom.polygon r).bounds with _ | b <;> rw [hbd] at hx <;> simp only [Option.map, reduceCtorEq,
+        Option.some.injEq] at hx
+      subst hx
+      exact ⟨_, rfl, by simp only [timeBounds, hB.st_ofGeom _ _ hbd, hB.en_ofGeom _ _ hbd]⟩
+    · subst hx; exact ⟨_, rfl, rfl⟩
+    · rename_i r
+      rcases hbd : (Geom.multiPolygon r).bounds with _ | b <;> rw [hbd] at hx <;> simp only [Option.map, reduceCtorEq,
+        Option.some.injEq] at hx
+      subst hx
+      exact ⟨_, rfl, by simp only [timeBounds, hB.st_ofGeom _ _ hbd, hB.en_ofGeom _ _ hbd]⟩
+  obtain ⟨p1, e1, b1⟩ := key g1 x1 h1
+  obtain ⟨p2, e2, b2⟩ := key g2 x2 h2
+  rw [C06_time_only_is_time_iou G g1 g2 tb fb p1 p2 ht e1 e2, b1, b2]
+
+example : closedExtent (.polygon [[(1, 2), (3, 2), (3, 5), (1, 2)]]) (1/4) = some (1, 3) := by decide +kernel
+example : closedExtent (.timeStamp 1) (1/4) = some (3/4, 5/4) := by decide +kernel
+
+/-! ### shift invariance without a clamp condition on geometries that are not buffered -/
+
+/-- **Shift invariance, full strength.**  Only a geometry that `_prepare_geometry` buffers has to stay
+    clear of time 0 (before and after the shift); intervals, boxes and polygons are not buffered and
+    need no such condition -/
+theorem C06_shift_invariant_strong (G : Geos σ) (d : Rat) (τ : σ → σ) (hS : ShiftInv G d τ) (g1 g2 : Geom)
+    (tb fb : Rat) (p1 : g1.bounds.isSome) (p2 : g2.bounds.isSome)
+    (c1 : bufferTypes.contains g1.tag = true → NoClamp g1 tb d)
+    (c2 : bufferTypes.contains g2.tag = true → NoClamp g2 tb d) :
+    affinity G (g1.shift d) (g2.shift d) tb fb = affinity G g1 g2 tb fb := by
+  have key : ∀ g, g.bounds.isSome → (bufferTypes.contains g.tag = true → NoClamp g tb d) →
+      prepare G (g.shift d) tb fb = (prepare G g tb fb).map (shiftPrep τ d) := by
+    intro g hp hc
+    by_cases hb : bufferTypes.contains g.tag = true
+    · exact prepare_shift G d τ hS g tb fb hp (hc hb)
+    · rw [prepare_spec, prepare_spec]
+      cases g <;> simp [bufferTypes, Geom.tag] at hb <;> simp only [Geom.shift]
+      · rfl
+      · simp only [Except.map, shiftPrep]; rw [← hS.ofGeom_shift _ hp]; rfl
+      · rfl
+      · simp only [Except.map, shiftPrep]; rw [← hS.ofGeom_shift _ hp]; rfl
+  unfold affinity
+  rw [key g1 p1 c1, key g2 p2 c2]
+  rcases prepare G g1 tb fb with e1 | q1 <;> rcases prepare G g2 tb fb with e2 | q2 <;>
+    simp only [Except.map]
+  congr 1
+  unfold affinityP
+  simp only [isTime_shiftPrep, timeBounds_shiftPrep G d τ hS, toShape_shiftPrep G d τ hS,
+    timeIoU_shift, hS.area_shift, hS.inter_shift]
+
+/-- a box that starts at time 0 may be shifted (the weaker theorem above excludes it) -/
+example : affinity boxGeos ((Geom.boundingBox 0 0 2 1).shift 3) ((Geom.timeInterval 1 2).shift 3) (1/2) 1
+    = affinity boxGeos (.boundingBox 0 0 2 1) (.timeInterval 1 2) (1/2) 1 :=
+  C06_shift_invariant_strong boxGeos 3 (shiftRect 3) (boxGeos_shiftInv 3) _ _ _ _ (by decide +kernel) (by decide +kernel)
+    (by intro h; exact absurd h (by decide)) (by intro h; exact absurd h (by decide))
+
+/-- the exact-bounds contract is satisfiable (rectangles) -/
+theorem C06_boundsExact_satisfiable : BoundsExact boxGeos := by
+  constructor <;> intro g b hb <;> simp only [boxGeos, hb]
+  · exact min_eq_left (SE.Proofs.Lemmas.Bounds.isBoundsOf_ordered b _
+      (SE.Proofs.Lemmas.Bounds.ptsBounds_isBoundsOf _ b hb)).1
+  · exact max_eq_right (SE.Proofs.Lemmas.Bounds.isBoundsOf_ordered b _
+      (SE.Proofs.Lemmas.Bounds.ptsBounds_isBoundsOf _ b hb)).1
+
+/-! ### non-vacuity of the rounding-arithmetic theorems -/
+
+example : Representable id boxGeos := ⟨fun _ => rfl, fun _ _ => rfl⟩
+
+/-- the hypotheses of `C06_self_one_rounded` / `C06_range_rounded` are met by rectangles in exact arithmetic … -/
+example : affinityR id boxGeos (.timeStamp 1) (.timeStamp 1) (1/4) 1 = .ok 1 :=
+  C06_self_one_rounded isRounding_id boxGeos boxGeos_sound ⟨fun _ => rfl, fun _ _ => rfl⟩ (.timeStamp 1) (1/4) 1
+    (.interval "TimeInterval" (max ((1 : Rat) - 1/4) 0) (1 + 1/4))
+    (by rw [prepareR_spec]; simp only [id]; rw [if_neg (by decide +kernel)]) (by decide +kernel)
+
+/-- … and the conclusions are what a coarse rounding computes as well -/
+example : affinityR floorRnd boxGeos (.boundingBox 0 0 2 1) (.boundingBox 0 0 2 1) (1/2) 1 = .ok 1 := by decide +kernel
+example : affinityR floorRnd boxGeos (.timeStamp 3) (.timeInterval 5 7) (3/2) 1 = .ok 0 := by decide +kernel
+example : affinityR floorRnd boxGeos (.timeStamp 3) (.timeInterval 4 7) (3/2) 1 = .ok 0 := by decide +kernel
+example : affinity boxGeos (.timeStamp 3) (.timeInterval 4 7) (3/2) 1 = .ok (1/11) := by decide +kernel
+
+/-- `rnd64` on concrete numbers: 1/3 and 1/10 round to the binary64 neighbours Python prints -/
+example : rnd64 (1/3) = 6004799503160661 / 18014398509481984 := by decide +kernel
+example : rnd64 (1/10) = 3602879701896397 / 36028797018963968 := by decide +kernel
+example : rnd64 1 = 1 ∧ rnd64 0 = 0 ∧ rnd64 5000000 = 5000000 := by decide +kernel
 
 end SE.Proofs.C06
